@@ -26,6 +26,7 @@ Section Step.
   Variable fixed : list nat.                 (* pinned (terminal) sites; [] when terminal_psi is None *)
   Variable solve : (nat -> T) -> (nat -> T). (* mu_laplacian_lu *)
   Variable tlink : nat -> C.                 (* temporal link exp(-i mu_r dt) of site r (numpy exp: data) *)
+  Variable repin : option C.                 (* Some v when options.terminal_psi is a non-zero value v: re-imposed after the Euler update *)
 
   Definition nthT (l : list T) (k : nat) : T := nth k l (# 0).
 
@@ -59,7 +60,12 @@ Section Step.
              (muB dAdt : nat -> T) : option step_out :=
     match euler_all U psi eps gamma u dt with
     | None => None
-    | Some psi' => Some {| so_psi := psi'; so_obs := solve_for_observables U psi' muB dAdt |}
+    | Some p =>
+        let psi' := match repin with
+                    | Some v => fun r => if is_fixed fixed r then v else p r
+                    | None => p
+                    end in
+        Some {| so_psi := psi'; so_obs := solve_for_observables U psi' muB dAdt |}
     end.
 
   (* ---------- update_mu_boundary: terminal current densities with a change-only cache ---------- *)
